@@ -1,6 +1,8 @@
 package main
 
 import (
+	"fmt"
+	"os"
 	"go/types"
 
 	"golang.org/x/tools/go/ssa"
@@ -253,6 +255,23 @@ func propC17(a *Analysis, r *Registry) {
 				}()
 			}
 			b.Eq("C-decision", name+"/early-failure", b.pos(fn), acc, env, "(!dflt && o.MaxLevel<o.MinLevel) || o.Max<1")
+			// past the early failures the level bounds are in order: either the defaults apply, or
+			// MinLevel <= MaxLevel. Values in the search are compared in each of the two regimes.
+			regimes := [][]Assumption{
+				{X.AssumeCond(env.MustParse("o.MinLevel==0"), true), X.AssumeCond(env.MustParse("o.MaxLevel==0"), true)},
+				{X.AssumeCond(env.MustParse("dflt"), false), X.AssumeCond(env.MustParse("o.MaxLevel<o.MinLevel"), false)},
+			}
+			eqR := func(rule, construct, where string, got *RF, e *SpecEnv, spec string) {
+				want := e.MustParse(spec)
+				for _, as := range regimes {
+					g, w := X.SimplifyUnder(got, as), X.SimplifyUnder(want, as)
+					if !(g.Equal(w) || S.BoolEquiv(g, w) || X.EquivByCases(g, w, 0)) {
+						r.Fail(rule, construct, where, "code computes "+clip(g.String(), 400)+" ; the stated formula is "+spec+" = "+clip(w.String(), 400))
+						return
+					}
+				}
+				r.OK(rule, construct, where, "≡ "+spec)
+			}
 			// the first CountTicks probe is at the clamped guess
 			calls := fc.CallsTo("invoke:CountTicks")
 			if len(calls) != 3 {
@@ -269,7 +288,7 @@ func propC17(a *Analysis, r *Registry) {
 				r.Fail("C-decision", name+"/clamp", b.pos(fn), "no probe at the starting level")
 				return
 			}
-			b.Eq("D-bound clamp", name+"/guess-clamped", a.W.InstrPos(first), fc.Val(first.Call.Args[0]), env, "l0")
+			eqR("D-bound clamp", name+"/guess-clamped", a.W.InstrPos(first), fc.Val(first.Call.Args[0]), env, "l0")
 			// the two searches
 			for _, c := range calls {
 				if c == first {
@@ -285,10 +304,10 @@ func propC17(a *Analysis, r *Registry) {
 				down := ln.Equal(e.MustParse("l-1"))
 				dir := map[bool]string{true: "down", false: "up"}[down]
 				if down {
-					b.Eq(rB, name+"/down/start", a.W.InstrPos(c), li, e, "l0-1")
+					eqR(rB, name+"/down/start", a.W.InstrPos(c), li, e, "l0-1")
 					b.Eq(rB, name+"/down/step", a.W.InstrPos(c), ln, e, "l-1")
 				} else {
-					b.Eq(rB, name+"/up/start", a.W.InstrPos(c), li, e, "l0+1")
+					eqR(rB, name+"/up/start", a.W.InstrPos(c), li, e, "l0+1")
 					b.Eq(rB, name+"/up/step", a.W.InstrPos(c), ln, e, "l+1")
 				}
 				// continuation condition: header→latch
@@ -302,58 +321,63 @@ func propC17(a *Analysis, r *Registry) {
 				if latch != nil {
 					cont := fc.ReachCondFrom(hdr, latch)
 					if down {
-						b.Eq(rB, name+"/down/continue", a.W.InstrPos(c), cont, e, "minL<=l && ticker.CountTicks(l)<=o.Max")
+						eqR(rB, name+"/down/continue", a.W.InstrPos(c), cont, e, "minL<=l && ticker.CountTicks(l)<=o.Max")
 					} else {
-						b.Eq(rB, name+"/up/continue", a.W.InstrPos(c), cont, e, "l<=maxL && o.Max<ticker.CountTicks(l)")
+						eqR(rB, name+"/up/continue", a.W.InstrPos(c), cont, e, "l<=maxL && o.Max<ticker.CountTicks(l)")
 					}
 				}
 				_ = dir
 			}
-			// results
-			nOK := 0
-			for _, rt := range fc.Ctx.Returns() {
-				if !fc.Val(rt.Results[1]).Equal(S.True()) {
-					continue
-				}
-				nOK++
-			}
-			if nOK != 1 {
-				r.Fail(rB, name+"/result", b.pos(fn), "expected a single successful return")
-				return
-			}
-			for _, rt := range fc.Ctx.Returns() {
-				if fc.Val(rt.Results[1]).Equal(S.True()) {
-					v := fc.Val(rt.Results[0])
-					// gated: down search exits with l+1, up search with l (and fails past maxL)
-					phs := fc.loopPhis(v)
-					if len(phs) < 2 {
-						r.Fail(rB, name+"/result", a.W.InstrPos(rt), "the level returned does not come from the two searches: "+clip(v.String(), 200))
-						continue
-					}
-					okForm := false
-					for _, d := range phs {
-						for _, u := range phs {
-							_, dn := fc.Recurrence(d)
-							_, un := fc.Recurrence(u)
-							e := X.EnvFor(fn, "o", "ticker", "guess")
-							e.Set("d", d, nil)
-							e.Set("u", u, nil)
-							e.Vars["l0"] = env.Vars["l0"]
-							if dn.Equal(e.MustParse("d-1")) && un.Equal(e.MustParse("u+1")) {
-								want := e.MustParse("ite(ticker.CountTicks(l0)<=o.Max, d+1, u)")
-								if v.Equal(want) || X.EquivByCases(v, want, 0) {
-									okForm = true
-								}
+			// results: one gated value over all returns (however many there are): failure
+			// (0,false) early or when the upward search passes maxL; else l+1 after the
+			// downward search, l after the upward search
+			b.guard(rB, name+"/result", func() {
+				rv0, rv1 := fc.RetVal(0), fc.RetVal(1)
+				phs := fc.loopPhis(rv0)
+				okForm := false
+				for _, d := range phs {
+					for _, u := range phs {
+						_, dn := fc.Recurrence(d)
+						_, un := fc.Recurrence(u)
+						e := X.EnvFor(fn, "o", "ticker", "guess")
+						for _, nm := range []string{"dflt", "minL", "maxL", "l0"} {
+							e.Vars[nm] = env.Vars[nm]
+						}
+						e.Set("d", d, nil)
+						e.Set("u", u, nil)
+						if !dn.Equal(e.MustParse("d-1")) || !un.Equal(e.MustParse("u+1")) {
+							continue
+						}
+						e.Let("early", "(!dflt && o.MaxLevel<o.MinLevel) || o.Max<1")
+						w0 := e.MustParse("ite(early, 0, ite(ticker.CountTicks(l0)<=o.Max, d+1, ite(maxL<u, 0, u)))")
+						w1 := e.MustParse("ite(early, false, ite(ticker.CountTicks(l0)<=o.Max, true, !(maxL<u)))")
+						same := true
+						all := append([][]Assumption{}, regimes...)
+						all = append(all, []Assumption{X.AssumeCond(e.MustParse("o.Max<1"), true)},
+							[]Assumption{X.AssumeCond(e.MustParse("dflt"), false), X.AssumeCond(e.MustParse("o.MaxLevel<o.MinLevel"), true)})
+						for _, as := range all {
+							g0, g1 := X.SimplifyUnder(rv0, as), X.SimplifyUnder(rv1, as)
+							x0, x1 := X.SimplifyUnder(w0, as), X.SimplifyUnder(w1, as)
+							ok0 := g0.Equal(x0) || X.EquivByCases(g0, x0, 0)
+							ok1 := g1.Equal(x1) || X.EquivByCases(g1, x1, 0)
+							if os.Getenv("GMSA_DEBUG_C17") != "" {
+								fmt.Fprintf(os.Stderr, "C17 result d=%s u=%s regime ok0=%v ok1=%v\n  g0=%s\n  x0=%s\n  g1=%s\n  x1=%s\n", d, u, ok0, ok1, clip(g0.String(), 900), clip(x0.String(), 900), clip(g1.String(), 900), clip(x1.String(), 900))
+							}
+							if !ok0 || !ok1 {
+								same = false
 							}
 						}
-					}
-					if okForm {
-						r.OK(rB, name+"/result", a.W.InstrPos(rt), "returns l+1 after the downward search and l after the upward search")
-					} else {
-						r.Fail(rB, name+"/result", a.W.InstrPos(rt), "the level returned is not (down: l+1 / up: l): "+clip(v.String(), 300))
+						if same {
+							okForm = true
+						}
 					}
 				}
-			}
+				if okForm {
+					r.OK(rB, name+"/result", b.pos(fn), "returns l+1 after the downward search and l after the upward search (0,false when that passes maxL or on the early failures)")
+				} else {
+					r.Fail(rB, name+"/result", b.pos(fn), "the result is not (down: l+1 / up: l, failing past maxL): "+clip(rv0.String(), 300))
+				}
+			})
 		})
 	}
 	// D-floor + guessLevel exemption
